@@ -146,17 +146,18 @@ func (m *modelReader) valueOf(t *Term, qname string) (uint64, bool) {
 }
 
 type goBuilder struct {
-	P       *Program
-	e       *Exec
-	m       *modelReader
-	pkg     *types.Package
-	imports map[string]string
-	plan    []func() // phase 2 closures
-	pre     []string // statements before the call
-	fillers []string // names of []byte backing arrays to re-fill for differential runs
-	ok      bool
-	why     string
-	idn     int
+	P        *Program
+	e        *Exec
+	m        *modelReader
+	pkg      *types.Package
+	imports  map[string]string
+	plan     []func() // phase 2 closures
+	pre      []string // statements before the call
+	fillers  []string // names of []byte backing arrays to re-fill for differential runs
+	textSeps []byte   // separators of the decimal-text view used by the obligation
+	ok       bool
+	why      string
+	idn      int
 }
 
 func (g *goBuilder) qual(p *types.Package) string {
@@ -213,6 +214,39 @@ func (g *goBuilder) value(T types.Type, v Val, depth int) func() string {
 				return fmt.Sprintf("%s(math.Float64frombits(0x%x))", g.typeStr(T), x)
 			}
 		case t.Info()&types.IsString != 0:
+			if depth == 0 && len(g.textSeps) > 0 {
+				// the obligation talks about this string through the decimal-text view
+				// (text.go): build a text with that many components and those values
+				sep := g.textSeps[0]
+				qn := g.m.want(e.txtNParts(v, sep))
+				var qok, qv []string
+				for k := 0; k < 5; k++ {
+					p := e.txtPart(v, sep, c.Const(64, uint64(k)))
+					qok = append(qok, g.m.want(e.txtAtoiOk(p)))
+					qv = append(qv, g.m.want(e.txtAtoiV(p)))
+				}
+				return func() string {
+					n, _ := g.m.vals[qn], 0
+					nn, _ := hexVal(n)
+					if nn < 1 {
+						nn = 1
+					}
+					if nn > 5 {
+						nn = 5
+					}
+					var parts []string
+					for k := 0; k < int(nn); k++ {
+						okv, _ := hexVal(g.m.vals[qok[k]])
+						vv, _ := hexVal(g.m.vals[qv[k]])
+						if okv == 1 {
+							parts = append(parts, fmt.Sprintf("%d", int64(vv)))
+						} else {
+							parts = append(parts, "x")
+						}
+					}
+					return fmt.Sprintf("%s(%q)", g.typeStr(T), strings.Join(parts, string(rune(sep))))
+				}
+			}
 			ql := g.m.want(v[1])
 			var qs []string
 			for i := 0; i < 40; i++ {
@@ -512,6 +546,28 @@ func contractToGo(x Expr, olds *[]string) (string, bool) {
 				return fmt.Sprintf("func() bool { _, ok := (%s).(%s); return ok }()", a, ty), ok
 			case "sep", "fresh", "allocated", "payload":
 				return "", false
+			case "nparts", "part", "atoiok", "atoiv":
+				var as []string
+				okAll := true
+				for _, a := range t.Args {
+					s, o2 := contractToGo(a, olds)
+					okAll = okAll && o2
+					as = append(as, s)
+				}
+				replayTextUsed = true
+				return "kvcTxt_" + id.Name + "(" + strings.Join(as, ", ") + ")", okAll
+			}
+			// spec function of the package: expand its body
+			sf := replaySpecs[replayPkg+"."+id.Name]
+			if sf == nil {
+				sf = replaySpecs[id.Name]
+			}
+			if sf != nil && len(sf.Params) == len(t.Args) {
+				sub := map[string]Expr{}
+				for i, p := range sf.Params {
+					sub[p] = t.Args[i]
+				}
+				return contractToGo(substExpr(sf.Body, sub), olds)
 			}
 		}
 		f, ok := contractToGo(t.Fun, olds)
@@ -527,6 +583,55 @@ func contractToGo(x Expr, olds *[]string) (string, bool) {
 		return f + "(" + strings.Join(as, ", ") + ")", ok
 	}
 	return "", false
+}
+
+var (
+	replaySpecs    map[string]*SpecFun
+	replayPkg      string
+	replayTextUsed bool
+)
+
+const replayTextHelpers = `
+func kvcTxt_nparts(s string, c byte) int { return len(strings.Split(s, string(rune(c)))) }
+func kvcTxt_part(s string, c byte, k int) string {
+	p := strings.Split(s, string(rune(c)))
+	if k >= 0 && k < len(p) {
+		return p[k]
+	}
+	return "\x00"
+}
+func kvcTxt_atoiok(t string) bool { _, err := strconv.Atoi(t); return err == nil }
+func kvcTxt_atoiv(t string) int   { v, _ := strconv.Atoi(t); return v }
+`
+
+// substExpr replaces identifiers by expressions (spec-function expansion).
+func substExpr(x Expr, sub map[string]Expr) Expr {
+	switch t := x.(type) {
+	case EIdent:
+		if r, ok := sub[t.Name]; ok {
+			return r
+		}
+		return t
+	case EUnary:
+		return EUnary{t.Op, substExpr(t.X, sub)}
+	case EBinary:
+		return EBinary{t.Op, substExpr(t.X, sub), substExpr(t.Y, sub)}
+	case ECall:
+		var as []Expr
+		for _, a := range t.Args {
+			as = append(as, substExpr(a, sub))
+		}
+		return ECall{t.Fun, as}
+	case EIndex:
+		return EIndex{substExpr(t.X, sub), substExpr(t.I, sub)}
+	case ESel:
+		return ESel{substExpr(t.X, sub), t.Sel}
+	case ECond:
+		return ECond{substExpr(t.C, sub), substExpr(t.A, sub), substExpr(t.B, sub)}
+	case EAssert:
+		return EAssert{substExpr(t.X, sub), t.T}
+	}
+	return x
 }
 
 // makeReplay builds, runs and records a replay for a failing obligation group.
@@ -672,6 +777,33 @@ func buildReplayTest(P *Program, e *Exec, fn *ssa.Function, ob *Obligation, rf *
 	ct := e.rootCt
 	m := &modelReader{e: e, names: map[string]*Term{}}
 	g := &goBuilder{P: P, e: e, m: m, pkg: fn.Pkg.Pkg, imports: map[string]string{"testing": "testing", "fmt": "fmt"}, ok: true}
+	seenT := map[*Term]bool{}
+	var findSeps func(t *Term)
+	findSeps = func(t *Term) {
+		if seenT[t] {
+			return
+		}
+		seenT[t] = true
+		if t.Op == OApply && t.Name == "txt.nparts" && len(t.Args) == 3 && t.Args[2].IsConst() {
+			b := byte(t.Args[2].C)
+			dup := false
+			for _, x := range g.textSeps {
+				dup = dup || x == b
+			}
+			if !dup {
+				g.textSeps = append(g.textSeps, b)
+			}
+		}
+		for _, a := range t.Args {
+			findSeps(a)
+		}
+	}
+	for _, a := range ob.Full {
+		findSeps(a)
+	}
+	replaySpecs = P.contracts.specs
+	replayPkg = shortPkg(fn.Pkg.Pkg.Path())
+	replayTextUsed = false
 	var plans []func() string
 	var names []string
 	for i, p := range fn.Params {
@@ -771,6 +903,10 @@ func buildReplayTest(P *Program, e *Exec, fn *ssa.Function, ob *Obligation, rf *
 	if pred == "hang" {
 		g.imports["time"] = "time"
 	}
+	if replayTextUsed {
+		g.imports["strings"] = "strings"
+		g.imports["strconv"] = "strconv"
+	}
 	testName := "TestKvcReplay_" + regexp.MustCompile(`[^A-Za-z0-9]`).ReplaceAllString(ob.Name, "_")
 	var sb strings.Builder
 	sb.WriteString("package " + fn.Pkg.Pkg.Name() + "\n\nimport (\n")
@@ -783,6 +919,9 @@ func buildReplayTest(P *Program, e *Exec, fn *ssa.Function, ob *Obligation, rf *
 		sb.WriteString(s)
 	}
 	sb.WriteString(")\n\n")
+	if replayTextUsed {
+		sb.WriteString(replayTextHelpers)
+	}
 	fmt.Fprintf(&sb, "// generated by kvc from the solver model of obligation %s\n", ob.Name)
 	if pred == "lemma" {
 		sb.WriteString("var kvcLemmaFailed bool\n\n")
